@@ -402,3 +402,1012 @@ func resolveLocalExpr(in *types.Info, f *FuncInfo, e ast.Expr) []ast.Expr {
 	}
 	return defs
 }
+
+// ---- R231–R239 (round 10, second batch) ----
+
+func init() {
+	register(&Rule{ID: "R231", Title: "an event is a description handed to every listener: no event type keeps delivery state — nothing outside its constructors writes a field of a type that implements IEvent", Min: 5, Run: ruleR231})
+	register(&Rule{ID: "R234", Title: "a probe result indexes what was probed: the list a gateway indexes with the indices of a probe report is the list it handed to the probe", Min: 2, Run: ruleR234})
+	register(&Rule{ID: "R235", Title: "capacity is an allocation detail: no branch of the engine depends on cap() of a slice", Min: 0, Run: ruleR235})
+	register(&Rule{ID: "R238", Title: "generators differ by partition, not by a label: the ids of a sno generator are drawn with a constant meta byte and no generator is built on a partition chosen by the program", Min: 1, Run: ruleR238})
+	register(&Rule{ID: "R239", Title: "a token is started once: (*flow).Start is called on a flow made by newFlow in the same function, never on a flow kept in a field", Min: 3, Run: ruleR239})
+}
+
+func ruleR231(c *Ctx) {
+	p := c.P
+	what := "the same event value is handed to every node that waits for it, possibly more than once (an instance in a model gets it from the model and from the replay of the start-event consumer). An event that remembers 'I was received' releases the first listener only; the others observe it and stay armed"
+	var iev *types.Interface
+	for _, pk := range p.Target {
+		if pk.PkgPath == pathEvent {
+			if o := pk.Types.Scope().Lookup("IEvent"); o != nil {
+				iev, _ = o.Type().Underlying().(*types.Interface)
+			}
+		}
+	}
+	if iev == nil {
+		c.Missing("IEvent", "the interface event.IEvent was not found")
+		return
+	}
+	evTypes := map[*types.Named]bool{}
+	for _, pk := range p.Target {
+		if !isTargetPkg(p, pk.PkgPath) {
+			continue
+		}
+		sc := pk.Types.Scope()
+		for _, nm := range sc.Names() {
+			tn, ok := sc.Lookup(nm).(*types.TypeName)
+			if !ok || tn.IsAlias() {
+				continue
+			}
+			nt, ok := tn.Type().(*types.Named)
+			if !ok {
+				continue
+			}
+			if _, isSt := nt.Underlying().(*types.Struct); !isSt {
+				continue
+			}
+			if types.Implements(nt, iev) || types.Implements(types.NewPointer(nt), iev) {
+				evTypes[nt] = true
+			}
+		}
+	}
+	bad := map[*types.Named][]string{}
+	for _, f := range p.Funcs {
+		if f.Body == nil || !isTargetPkg(p, f.Pkg.PkgPath) {
+			continue
+		}
+		in := info(f)
+		evField := func(e ast.Expr) (*types.Named, ast.Expr) {
+			se, ok := unparen(e).(*ast.SelectorExpr)
+			if !ok || fieldOf(in, se) == nil {
+				return nil, nil
+			}
+			nt := namedOf(in.TypeOf(se.X))
+			if nt == nil || !evTypes[nt] {
+				return nil, nil
+			}
+			return nt, se.X
+		}
+		fresh := func(base ast.Expr) bool {
+			// a value under construction: a local of this function that is not a parameter or receiver
+			id := rootIdent(base)
+			if id == nil {
+				return false
+			}
+			v, ok := objOf(in, id).(*types.Var)
+			if !ok || v.IsField() {
+				return false
+			}
+			if isParam(f.Root(), v) || isParam(f, v) {
+				return false
+			}
+			if r := f.Root(); r.Obj != nil {
+				if sig, ok := r.Obj.Type().(*types.Signature); ok && sig.Recv() == v {
+					return false
+				}
+			}
+			_, isPtr := v.Type().Underlying().(*types.Pointer)
+			if isPtr {
+				// a pointer local is fresh only if every definition is &T{} / new(T)
+				defs, _ := localDefs(in, f.Root().Body, v)
+				if len(defs) == 0 {
+					return false
+				}
+				for _, d := range defs {
+					if !isFreshAlloc(in, d) {
+						return false
+					}
+				}
+			}
+			return true
+		}
+		inspectNoLit(f.Body, func(m ast.Node) bool {
+			switch x := m.(type) {
+			case *ast.AssignStmt:
+				for _, l := range x.Lhs {
+					if nt, base := evField(l); nt != nil && !fresh(base) {
+						bad[nt] = append(bad[nt], "assignment to "+exprString(l)+" at "+c.pos(x)+" ("+f.QName()+")")
+					}
+				}
+			case *ast.IncDecStmt:
+				if nt, base := evField(x.X); nt != nil && !fresh(base) {
+					bad[nt] = append(bad[nt], exprString(x.X)+x.Tok.String()+" at "+c.pos(x)+" ("+f.QName()+")")
+				}
+			case *ast.UnaryExpr:
+				// &ev.f handed to a function of sync/atomic (an accessor that returns &ev.f writes nothing)
+				if x.Op == token.AND {
+					if pc, ok := p.Parent(x).(*ast.CallExpr); ok {
+						if fn := callee(in, pc); fn != nil && fn.Pkg() != nil && fn.Pkg().Path() == "sync/atomic" {
+							if nt, base := evField(x.X); nt != nil && !fresh(base) {
+								bad[nt] = append(bad[nt], exprString(pc)+" at "+c.pos(x)+" ("+f.QName()+")")
+							}
+						}
+					}
+				}
+			case *ast.CallExpr:
+				// a method of a sync / atomic typed field: x.f.Store(..), x.f.Lock()
+				if se, ok := unparen(x.Fun).(*ast.SelectorExpr); ok {
+					if nt, base := evField(se.X); nt != nil && !fresh(base) {
+						if fn := callee(in, x); fn != nil && fn.Pkg() != nil && (fn.Pkg().Path() == "sync" || fn.Pkg().Path() == "sync/atomic") {
+							bad[nt] = append(bad[nt], exprString(x.Fun)+" at "+c.pos(x)+" ("+f.QName()+")")
+						}
+					}
+				}
+			}
+			return true
+		})
+	}
+	for nt := range evTypes {
+		c.Check(len(bad[nt]) == 0, nil, posNode(nt.Obj().Pos()), "event type "+nt.Obj().Pkg().Name()+"."+nt.Obj().Name()+" is immutable once made", what, ifElse(len(bad[nt]) == 0, "no field is written outside a constructor", strings.Join(bad[nt], "; ")))
+	}
+}
+
+func isFreshAlloc(in *types.Info, e ast.Expr) bool {
+	switch x := unparen(e).(type) {
+	case *ast.UnaryExpr:
+		if x.Op == token.AND {
+			_, ok := unparen(x.X).(*ast.CompositeLit)
+			if ok {
+				return true
+			}
+			if id, ok := unparen(x.X).(*ast.Ident); ok {
+				if v, ok := objOf(in, id).(*types.Var); ok && !v.IsField() {
+					return true // &local
+				}
+			}
+		}
+	case *ast.CallExpr:
+		return isBuiltin(in, x, "new")
+	}
+	return false
+}
+
+func ruleR234(c *Ctx) {
+	p := c.P
+	what := "the token numbers the flows whose conditions held by their position in the list it was given. Looked up in another list (all outgoing flows, where the default flow sits in between), position i names another flow: the default flow is taken although a condition held, or a flow whose condition held is skipped"
+	n := 0
+	isReport := func(t types.Type) bool { return isNamed(t, pathBpmn, "gatewayProbingReport") }
+	// per node type: the fields handed to probes
+	probed := map[*types.Named]map[*types.Var]bool{}
+	for _, f := range p.Funcs {
+		if f.Body == nil || f.Pkg.PkgPath != pathBpmn {
+			continue
+		}
+		r := f.Root()
+		if r.Obj == nil || recvNamed(r.Obj) == nil {
+			continue
+		}
+		T := recvNamed(r.Obj)
+		in := info(f)
+		inspectNoLit(f.Body, func(m ast.Node) bool {
+			cl, ok := m.(*ast.CompositeLit)
+			if !ok || !isNamed(in.TypeOf(cl), pathBpmn, "probeAction") {
+				return true
+			}
+			for _, el := range cl.Elts {
+				kv, ok := el.(*ast.KeyValueExpr)
+				if !ok {
+					continue
+				}
+				if k, ok := kv.Key.(*ast.Ident); ok && k.Name == "sequenceFlows" {
+					if fv := fieldOf(in, kv.Value); fv != nil {
+						if probed[T] == nil {
+							probed[T] = map[*types.Var]bool{}
+						}
+						probed[T][fv] = true
+					}
+				}
+			}
+			return true
+		})
+	}
+	for _, f := range p.Funcs {
+		if f.Body == nil || f.Pkg.PkgPath != pathBpmn {
+			continue
+		}
+		r := f.Root()
+		if r.Obj == nil || recvNamed(r.Obj) == nil {
+			continue
+		}
+		T := recvNamed(r.Obj)
+		in := info(f)
+		for _, d := range typeDispatches(p, f, isIMessage) {
+			for _, a := range d {
+				if len(a.Types) != 1 || !isReport(a.Types[0]) {
+					continue
+				}
+				for _, st := range a.Body {
+					inspectNoLit(st, func(m ast.Node) bool {
+						rs, ok := m.(*ast.RangeStmt)
+						if !ok || rs.Value == nil {
+							return true
+						}
+						// ranges over the report's indices
+						if fv := fieldOf(in, rs.X); fv == nil || fv.Name() != "result" {
+							return true
+						}
+						iv := objOf(in, rs.Value)
+						inspectNoLit(rs.Body, func(z ast.Node) bool {
+							ix, ok := z.(*ast.IndexExpr)
+							if !ok {
+								return true
+							}
+							id, ok := unparen(ix.Index).(*ast.Ident)
+							if !ok || objOf(in, id) != iv {
+								return true
+							}
+							n++
+							fv := fieldOf(in, ix.X)
+							same := fv != nil && probed[T][fv]
+							var names []string
+							for v := range probed[T] {
+								names = append(names, v.Name())
+							}
+							c.Check(same, f, ix, "list indexed by a probe result in "+T.Obj().Name(), what, ifElse(same, exprString(ix.X)+" is what the probe was given", exprString(ix.X)+" is indexed, the probe was given "+strings.Join(names, ",")))
+							return true
+						})
+						return true
+					})
+				}
+			}
+		}
+	}
+	if n == 0 {
+		c.Missing("probe result lookups", "no handler of gatewayProbingReport that indexes a list with the reported indices was found")
+	}
+}
+
+func ruleR235(c *Ctx) {
+	p := c.P
+	what := "how much room a slice has is decided by the allocator and by append's growth policy; it says nothing about the process. A guard such as `if len(chains) == cap(chains) { break }` turns a reservation into a limit: the event that needs one more chain is discarded as 'does not match'"
+	for _, f := range p.Funcs {
+		if f.Body == nil || !isTargetPkg(p, f.Pkg.PkgPath) {
+			continue
+		}
+		in := info(f)
+		inspectNoLit(f.Body, func(m ast.Node) bool {
+			var cond ast.Expr
+			switch x := m.(type) {
+			case *ast.IfStmt:
+				cond = x.Cond
+			case *ast.ForStmt:
+				cond = x.Cond
+			case *ast.SwitchStmt:
+				cond = x.Tag
+			case *ast.CaseClause:
+				for _, e := range x.List {
+					if mentionsDeep(e, func(z ast.Node) bool { cl, ok := z.(*ast.CallExpr); return ok && isBuiltin(in, cl, "cap") }) {
+						c.Bad(f, e, "branch on cap() in "+f.QName(), what, exprString(e))
+					}
+				}
+			}
+			if cond != nil && mentionsDeep(cond, func(z ast.Node) bool { cl, ok := z.(*ast.CallExpr); return ok && isBuiltin(in, cl, "cap") }) {
+				c.Bad(f, cond, "branch on cap() in "+f.QName(), what, exprString(cond))
+			}
+			return true
+		})
+	}
+}
+
+func ruleR238(c *Ctx) {
+	p := c.P
+	what := "sno keeps generators apart by giving each its own partition (and restored ones the partition of their snapshot); the meta byte is a label for the user and is not part of a snapshot. Several generators put on one partition 'and told apart by meta' collide as soon as one of them is restored: the label is gone, partition, time unit and sequence are equal"
+	n := 0
+	for _, f := range p.Funcs {
+		if f.Body == nil || f.Pkg.PkgPath != pathID {
+			continue
+		}
+		in := info(f)
+		inspectNoLit(f.Body, func(m ast.Node) bool {
+			switch x := m.(type) {
+			case *ast.CallExpr:
+				fn := callee(in, x)
+				if fn == nil || fn.Pkg() == nil || !strings.HasSuffix(fn.Pkg().Path(), "/sno") {
+					return true
+				}
+				if fn.Name() == "New" && recvNamed(fn) != nil && recvNamed(fn).Obj().Name() == "Generator" && len(x.Args) == 1 {
+					n++
+					tv, has := in.Types[x.Args[0]]
+					isConst := has && tv.Value != nil
+					c.Check(isConst, f, x, "meta byte of the ids drawn in "+f.QName(), what, ifElse(isConst, "constant "+exprString(x.Args[0]), exprString(x.Args[0])+" varies: ids are told apart by a label a snapshot does not carry"))
+				}
+			case *ast.CompositeLit:
+				if nt := namedOf(in.TypeOf(x)); nt != nil && nt.Obj().Name() == "GeneratorSnapshot" && nt.Obj().Pkg() != nil && strings.HasSuffix(nt.Obj().Pkg().Path(), "/sno") && len(x.Elts) > 0 {
+					c.Bad(f, x, "hand-made generator snapshot in "+f.QName(), what, "a snapshot is made by a generator (Snapshot) or decoded from one; "+exprString(x)+" places a generator on a partition chosen by the program")
+				}
+			}
+			return true
+		})
+	}
+	if n == 0 {
+		c.Missing("id draws", "no call of (*sno.Generator).New was found in pkg/id")
+	}
+}
+
+func ruleR239(c *Ctx) {
+	p := c.P
+	what := "a token draws its id when it is made (newFlow). A node that keeps 'its' token in a field and starts it again for the next trigger announces a second token under the first one's id: two NewFlowTraces with the same FlowId, and whoever keys tokens by id (the tracker, the inclusive join's cohort) sees one token where there are two"
+	n := 0
+	for _, f := range p.Funcs {
+		if f.Body == nil || f.Pkg.PkgPath != pathBpmn {
+			continue
+		}
+		in := info(f)
+		inspectNoLit(f.Body, func(m ast.Node) bool {
+			cl, ok := m.(*ast.CallExpr)
+			if !ok {
+				return true
+			}
+			fn := callee(in, cl)
+			if fn == nil || fn.Name() != "Start" || recvNamed(fn) == nil || recvNamed(fn).Obj().Name() != "flow" || recvNamed(fn).Obj().Pkg().Path() != pathBpmn {
+				return true
+			}
+			se, ok := unparen(cl.Fun).(*ast.SelectorExpr)
+			if !ok {
+				return true
+			}
+			n++
+			freshTok := false
+			wit := exprString(se.X) + " is not a local made by newFlow"
+			if id, ok := unparen(se.X).(*ast.Ident); ok {
+				if v, ok := objOf(in, id).(*types.Var); ok && !v.IsField() && !isParam(f.Root(), v) {
+					defs, _ := localDefs(in, f.Root().Body, v)
+					freshTok = len(defs) > 0
+					for _, d := range defs {
+						dc, ok := unparen(d).(*ast.CallExpr)
+						if !ok {
+							freshTok = false
+							continue
+						}
+						df := callee(in, dc)
+						if df == nil || df.Name() != "newFlow" {
+							if cf := p.byObj[df]; cf == nil || cf.Pkg != f.Pkg || !returnsCallOf(p, cf, "newFlow") {
+								freshTok = false
+							}
+						}
+					}
+					// and the local is declared inside the innermost loop around the call (one token per iteration)
+					if freshTok {
+						if lp := innermostLoop(p, cl); lp != nil && !(lp.Pos() <= v.Pos() && v.Pos() < lp.End()) {
+							freshTok = false
+							wit = id.Name + " is declared outside the loop that starts it"
+						}
+					}
+					if freshTok {
+						wit = id.Name + " := newFlow(...) in the same function"
+					}
+				}
+			}
+			if !freshTok {
+				// the tokens a node was given when it was built, started by the Once.Do that starts the node itself
+				for cur := f; cur != nil && cur.Lit != nil; cur = cur.Parent {
+					if pc, ok := p.Parent(cur.Lit).(*ast.CallExpr); ok && cur.Parent != nil && isSyncMethod(info(cur.Parent), pc, "Once", "Do") {
+						freshTok, wit = true, exprString(se.X)+" is started inside sync.Once.Do: once per node"
+					}
+				}
+			}
+			c.Check(freshTok, f, cl, "token started in "+f.QName(), what, wit)
+			return true
+		})
+	}
+	if n == 0 {
+		c.Missing("token starts", "no call of (*flow).Start was found")
+	}
+}
+
+// returnsCallOf: every return of f hands back the result of a call of the named function (directly or through a local).
+func returnsCallOf(p *Prog, f *FuncInfo, name string) bool {
+	if f.Body == nil {
+		return false
+	}
+	in := info(f)
+	all, any := true, false
+	inspectNoLit(f.Body, func(m ast.Node) bool {
+		rs, ok := m.(*ast.ReturnStmt)
+		if !ok || len(rs.Results) == 0 {
+			return true
+		}
+		any = true
+		okOne := false
+		for _, src := range resolveLocalExpr(in, f, rs.Results[0]) {
+			if cl, ok := unparen(src).(*ast.CallExpr); ok {
+				if fn := callee(in, cl); fn != nil && fn.Name() == name {
+					okOne = true
+				}
+			}
+		}
+		if !okOne {
+			all = false
+		}
+		return true
+	})
+	return any && all
+}
+
+// ---- R240–R245 (round 10, third batch) ----
+
+func init() {
+	register(&Rule{ID: "R240", Title: "whether a token goes on is decided by its own move: the local that holds the outcome of the token's own sequence flow (the call that moves the token) is defined by that call alone", Min: 1, Run: ruleR240})
+	register(&Rule{ID: "R241", Title: "an activity or event continues over all its outgoing flows: every flowAction a non-gateway node answers with carries allSequenceFlows(&outgoing), set in the literal and not depending on what happened inside", Min: 5, Run: ruleR241})
+	register(&Rule{ID: "R242", Title: "the caller's option list is the caller's: a function appends to its variadic parameter in place only in a branch the constructor of the options makes unreachable", Min: 2, Run: ruleR242})
+	register(&Rule{ID: "R243", Title: "an edge starts on its source and ends on its target: the first waypoint of a connection is computed from the source bounds only, the last from the target bounds only", Min: 2, Run: ruleR243})
+	register(&Rule{ID: "R244", Title: "an empty list and no list are the same model: no predicate over the schema model compares a list with nil (XML has no empty list: it parses back as nil)", Min: 0, Run: ruleR244})
+	register(&Rule{ID: "R245", Title: "no read lock is taken twice: while a method holds a lock of its receiver it calls no method of the same receiver that acquires that lock (a writer queued in between blocks both for ever)", Min: 0, Run: ruleR245})
+}
+
+func ruleR240(c *Ctx) {
+	p := c.P
+	what := "after distributing a flow action the token ends itself iff it took none of the flows itself; the new tokens of the other flows carry on regardless. If the outcome of an additional flow overwrites the token's own outcome, the token ends although it has moved (the node behind is never requested) or asks the node it never left a second time (the sub-process is entered again)"
+	n := 0
+	movesToken := func(cf *FuncInfo) bool {
+		if cf == nil || cf.Body == nil {
+			return false
+		}
+		in := info(cf)
+		found := false
+		inspectNoLit(cf.Body, func(m ast.Node) bool {
+			if as, ok := m.(*ast.AssignStmt); ok {
+				for _, l := range as.Lhs {
+					if fv := fieldOf(in, l); fv != nil && fv.Name() == "current" {
+						found = true
+					}
+				}
+			}
+			return true
+		})
+		return found
+	}
+	for _, f := range p.Funcs {
+		if f.Body == nil || f.Pkg.PkgPath != pathBpmn {
+			continue
+		}
+		r := f.Root()
+		if r.Obj == nil || recvNamed(r.Obj) == nil || recvNamed(r.Obj).Obj().Name() != "flow" {
+			continue
+		}
+		in := info(f)
+		inspectNoLit(f.Body, func(m ast.Node) bool {
+			as, ok := m.(*ast.AssignStmt)
+			if !ok || as.Tok != token.DEFINE || len(as.Lhs) != 1 || len(as.Rhs) != 1 {
+				return true
+			}
+			cl, ok := unparen(as.Rhs[0]).(*ast.CallExpr)
+			if !ok {
+				return true
+			}
+			cf := p.byObj[callee(in, cl)]
+			if cf == nil || cf == f.Root() || !movesToken(cf) {
+				return true
+			}
+			id, ok := as.Lhs[0].(*ast.Ident)
+			if !ok {
+				return true
+			}
+			v := in.Defs[id]
+			if v == nil {
+				return true
+			}
+			if b, ok := v.Type().Underlying().(*types.Basic); !ok || b.Kind() != types.Bool {
+				return true
+			}
+			n++
+			defs, _ := localDefs(in, f.Body, v)
+			var other []string
+			for _, d := range defs {
+				if dc, ok := unparen(d).(*ast.CallExpr); ok && p.byObj[callee(in, dc)] == cf {
+					continue
+				}
+				other = append(other, exprString(d)+" at "+c.pos(d))
+			}
+			c.Check(len(other) == 0, f, as, "outcome "+id.Name+" of the token's own move in "+f.Root().QName(), what, ifElse(len(other) == 0, "defined by "+cf.QName()+" alone", "also assigned from "+strings.Join(other, "; ")))
+			return true
+		})
+	}
+	if n == 0 {
+		c.Missing("token move", "no local that holds the outcome of the call that moves the token was found in (*flow)")
+	}
+}
+
+func ruleR241(c *Ctx) {
+	p := c.P
+	what := "a sub-process, task or event that has done its work hands the token all its outgoing flows; which of them are taken is decided by their conditions in the token. An answer whose flows depend on what the node saw inside (an end event reached, say) ends the parent token at a sub-process with an implicit end: everything behind it is never requested while the instance reports completion"
+	n := 0
+	for _, f := range p.Funcs {
+		if f.Body == nil || f.Pkg.PkgPath != pathBpmn {
+			continue
+		}
+		r := f.Root()
+		if r.Obj == nil || recvNamed(r.Obj) == nil {
+			continue
+		}
+		T := recvNamed(r.Obj)
+		if strings.Contains(strings.ToLower(T.Obj().Name()), "gateway") || T.Obj().Name() == "flow" {
+			continue
+		}
+		in := info(f)
+		inspectNoLit(f.Body, func(m ast.Node) bool {
+			switch x := m.(type) {
+			case *ast.CompositeLit:
+				if !isNamed(in.TypeOf(x), pathBpmn, "flowAction") {
+					return true
+				}
+				n++
+				var val ast.Expr
+				for _, el := range x.Elts {
+					if kv, ok := el.(*ast.KeyValueExpr); ok {
+						if k, ok := kv.Key.(*ast.Ident); ok && k.Name == "sequenceFlows" {
+							val = kv.Value
+						}
+					}
+				}
+				ok := false
+				wit := "the literal does not set sequenceFlows"
+				if val != nil {
+					wit = exprString(val) + " is not allSequenceFlows(&<node>.outgoing)"
+					for _, src := range resolveLocalExpr(in, f, val) {
+						if cl, isCall := unparen(src).(*ast.CallExpr); isCall && len(cl.Args) == 1 {
+							if fn := callee(in, cl); fn != nil && fn.Name() == "allSequenceFlows" {
+								if u, isAddr := unparen(cl.Args[0]).(*ast.UnaryExpr); isAddr && u.Op == token.AND {
+									if fv := fieldOf(in, u.X); fv != nil && fv.Name() == "outgoing" {
+										ok, wit = true, exprString(src)
+									}
+								}
+							}
+						}
+					}
+				}
+				c.Check(ok, f, x, "flows of the answer of "+T.Obj().Name(), what, wit)
+			case *ast.AssignStmt:
+				for _, l := range x.Lhs {
+					se, ok := unparen(l).(*ast.SelectorExpr)
+					if !ok || se.Sel.Name != "sequenceFlows" || !isNamed(in.TypeOf(se.X), pathBpmn, "flowAction") {
+						continue
+					}
+					c.Bad(f, x, "flows of the answer of "+T.Obj().Name()+" set after the fact", what, exprString(l)+" is assigned at "+c.pos(x)+": the flows of the answer are decided later than the literal")
+				}
+			}
+			return true
+		})
+	}
+	if n == 0 {
+		c.Missing("answers", "no flowAction literal of a non-gateway node was found")
+	}
+}
+
+func ruleR242(c *Ctx) {
+	p := c.P
+	what := "`opts = append(opts, x)` writes into the caller's backing array whenever the caller's slice has spare capacity. Two goroutines that create instances from one option slice then write the same slots: an instance ends up wired to another instance's tracer and id generator and answers the other's traces"
+	n := 0
+	// fields a constructor defaults: `if o.F == nil { o.F = ... }` in a function that returns the options
+	defaulted := map[*types.Var]bool{}
+	for _, f := range p.Funcs {
+		if f.Body == nil || !isTargetPkg(p, f.Pkg.PkgPath) || f.Lit != nil {
+			continue
+		}
+		in := info(f)
+		inspectNoLit(f.Body, func(m ast.Node) bool {
+			is, ok := m.(*ast.IfStmt)
+			if !ok || is.Else != nil {
+				return true
+			}
+			be, ok := unparen(is.Cond).(*ast.BinaryExpr)
+			if !ok || be.Op != token.EQL {
+				return true
+			}
+			if tv, ok := in.Types[be.Y]; !ok || !tv.IsNil() {
+				return true
+			}
+			fv := fieldOf(in, be.X)
+			if fv == nil {
+				return true
+			}
+			for _, st := range is.Body.List {
+				if as, ok := st.(*ast.AssignStmt); ok && len(as.Lhs) == 1 && fieldOf(in, as.Lhs[0]) == fv && sameRef(in, as.Lhs[0], be.X) {
+					// and nothing leaves the function between here and the end without the field set: the if is a
+					// top-level statement of the body
+					if p.Parent(is) == ast.Node(f.Body) {
+						defaulted[fv] = true
+					}
+				}
+			}
+			return true
+		})
+	}
+	for _, f := range p.Funcs {
+		if f.Body == nil || !isTargetPkg(p, f.Pkg.PkgPath) {
+			continue
+		}
+		r := f.Root()
+		var sig *types.Signature
+		if r.Obj != nil {
+			sig, _ = r.Obj.Type().(*types.Signature)
+		}
+		if sig == nil || !sig.Variadic() {
+			continue
+		}
+		vp := sig.Params().At(sig.Params().Len() - 1)
+		in := info(f)
+		inspectNoLit(f.Body, func(m ast.Node) bool {
+			as, ok := m.(*ast.AssignStmt)
+			if !ok || len(as.Lhs) != 1 || len(as.Rhs) != 1 {
+				return true
+			}
+			lid, ok := unparen(as.Lhs[0]).(*ast.Ident)
+			if !ok || objOf(in, lid) != types.Object(vp) {
+				return true
+			}
+			cl, ok := unparen(as.Rhs[0]).(*ast.CallExpr)
+			if !ok || !isBuiltin(in, cl, "append") || len(cl.Args) < 2 {
+				return true
+			}
+			if aid, ok := unparen(cl.Args[0]).(*ast.Ident); !ok || objOf(in, aid) != types.Object(vp) {
+				return true
+			}
+			n++
+			dead := ""
+			for _, pc := range polarConds(p, as) {
+				be, ok := unparen(pc.cond).(*ast.BinaryExpr)
+				if !ok || !pc.positive || be.Op != token.EQL {
+					continue
+				}
+				if tv, ok := in.Types[be.Y]; !ok || !tv.IsNil() {
+					continue
+				}
+				for _, src := range resolveLocalExpr(in, f, be.X) {
+					if fv := fieldOf(in, src); fv != nil && defaulted[fv] {
+						// the base of the field comes from the constructor
+						se := unparen(src).(*ast.SelectorExpr)
+						for _, b := range resolveLocalExpr(in, f, se.X) {
+							if bc, ok := unparen(b).(*ast.CallExpr); ok {
+								if cf := p.byObj[callee(in, bc)]; cf != nil {
+									dead = exprString(pc.cond) + " never holds: " + cf.QName() + " defaults " + fv.Name()
+								}
+							}
+						}
+					}
+				}
+			}
+			c.Check(dead != "", f, as, "in-place append to the variadic parameter "+vp.Name()+" of "+r.QName(), what, ifElse(dead != "", "unreachable ("+dead+")", "reachable: the append writes into the caller's slice"))
+			return true
+		})
+	}
+	if n == 0 {
+		c.Missing("variadic appends", "no in-place append to a variadic parameter was found (the rule's instances on this tree are the two unreachable ones in Engine.NewProcess)")
+	}
+}
+
+// r243deps: the parameters of f that the value of e depends on (data dependences only), through locals and through the
+// results of same-package helpers.
+func r243deps(p *Prog, f *FuncInfo, e ast.Expr, depth int, seen map[types.Object]bool) map[types.Object]bool {
+	out := map[types.Object]bool{}
+	in := info(f)
+	var visit func(x ast.Expr)
+	visit = func(x ast.Expr) {
+		ast.Inspect(x, func(m ast.Node) bool {
+			switch y := m.(type) {
+			case *ast.CallExpr:
+				cf := p.byObj[callee(in, y)]
+				if cf == nil || cf.Pkg != f.Pkg || depth <= 0 {
+					return true // arguments are visited below
+				}
+				// the single result of a helper
+				params := paramsOf(cf)
+				hit := false
+				inspectNoLit(cf.Body, func(z ast.Node) bool {
+					if rs, ok := z.(*ast.ReturnStmt); ok && len(rs.Results) == 1 {
+						for d := range r243deps(p, cf, rs.Results[0], depth-1, map[types.Object]bool{}) {
+							for i, pv := range params {
+								if pv == d && i < len(y.Args) {
+									hit = true
+									visit(y.Args[i])
+								}
+							}
+						}
+					}
+					return true
+				})
+				// a helper whose result is filled by method calls (point.SetX(x)): every argument counts
+				return !hit
+			case *ast.SelectorExpr:
+				visit(y.X)
+				return false
+			case *ast.Ident:
+				v, ok := objOf(in, y).(*types.Var)
+				if !ok || v.IsField() {
+					return true
+				}
+				if isParam(f.Root(), v) {
+					out[v] = true
+					return true
+				}
+				if seen[v] {
+					return true
+				}
+				seen[v] = true
+				inspectNoLit(f.Root().Body, func(z ast.Node) bool {
+					as, ok := z.(*ast.AssignStmt)
+					if !ok {
+						return true
+					}
+					for i, l := range as.Lhs {
+						lid, ok := unparen(l).(*ast.Ident)
+						if !ok || objOf(in, lid) != types.Object(v) {
+							continue
+						}
+						if len(as.Rhs) == len(as.Lhs) {
+							visit(as.Rhs[i])
+						} else if len(as.Rhs) == 1 {
+							// tuple from a helper: result i
+							if cl, ok := unparen(as.Rhs[0]).(*ast.CallExpr); ok {
+								cf := p.byObj[callee(in, cl)]
+								if cf == nil || cf.Pkg != f.Pkg || depth <= 0 {
+									visit(as.Rhs[0])
+									continue
+								}
+								params := paramsOf(cf)
+								for d := range r243resultDeps(p, cf, i, depth-1) {
+									for j, pv := range params {
+										if pv == d && j < len(cl.Args) {
+											visit(cl.Args[j])
+										}
+									}
+								}
+							} else {
+								visit(as.Rhs[0])
+							}
+						}
+					}
+					return true
+				})
+			}
+			return true
+		})
+	}
+	visit(e)
+	return out
+}
+
+func paramsOf(f *FuncInfo) []types.Object {
+	var out []types.Object
+	if f.Obj == nil {
+		return nil
+	}
+	sig := f.Obj.Type().(*types.Signature)
+	for i := 0; i < sig.Params().Len(); i++ {
+		out = append(out, sig.Params().At(i))
+	}
+	return out
+}
+
+// r243resultDeps: the parameters of helper cf that its i-th result depends on (named results: every assignment to the
+// result variable; explicit returns: the i-th expression).
+func r243resultDeps(p *Prog, cf *FuncInfo, i int, depth int) map[types.Object]bool {
+	out := map[types.Object]bool{}
+	if cf.Body == nil || cf.Obj == nil {
+		return out
+	}
+	in := info(cf)
+	sig := cf.Obj.Type().(*types.Signature)
+	var rv *types.Var
+	if i < sig.Results().Len() && sig.Results().At(i).Name() != "" {
+		rv = sig.Results().At(i)
+	}
+	inspectNoLit(cf.Body, func(z ast.Node) bool {
+		switch x := z.(type) {
+		case *ast.ReturnStmt:
+			if i < len(x.Results) {
+				for d := range r243deps(p, cf, x.Results[i], depth, map[types.Object]bool{}) {
+					out[d] = true
+				}
+			}
+		case *ast.AssignStmt:
+			if rv == nil {
+				return true
+			}
+			for j, l := range x.Lhs {
+				if lid, ok := unparen(l).(*ast.Ident); ok && objOf(in, lid) == types.Object(rv) && len(x.Lhs) == len(x.Rhs) {
+					for d := range r243deps(p, cf, x.Rhs[j], depth, map[types.Object]bool{}) {
+						out[d] = true
+					}
+				}
+			}
+		}
+		return true
+	})
+	return out
+}
+
+func ruleR243(c *Ctx) {
+	p := c.P
+	what := "the edge of a sequence flow leaves the shape of its source and arrives on the shape of its target. An end point that is 'corrected' with a coordinate of the other shape (clamped to the source's border when the columns are narrow) lies outside the target shape"
+	n := 0
+	for _, f := range p.Funcs {
+		if f.Body == nil || f.Obj == nil || f.Pkg.PkgPath != pathSchema {
+			continue
+		}
+		sig := f.Obj.Type().(*types.Signature)
+		if sig.Params().Len() != 2 || sig.Results().Len() != 1 {
+			continue
+		}
+		if !types.Identical(sig.Params().At(0).Type(), sig.Params().At(1).Type()) {
+			continue
+		}
+		sl, ok := sig.Results().At(0).Type().Underlying().(*types.Slice)
+		if !ok || namedOf(sl.Elem()) == nil || namedOf(sl.Elem()).Obj().Name() != "Point" {
+			continue
+		}
+		src, dst := types.Object(sig.Params().At(0)), types.Object(sig.Params().At(1))
+		in := info(f)
+		inspectNoLit(f.Body, func(m ast.Node) bool {
+			rs, ok := m.(*ast.ReturnStmt)
+			if !ok || len(rs.Results) != 1 {
+				return true
+			}
+			for _, e := range resolveLocalExpr(in, f, rs.Results[0]) {
+				cl, ok := unparen(e).(*ast.CompositeLit)
+				if !ok || len(cl.Elts) < 2 {
+					continue
+				}
+				for _, end := range []struct {
+					e     ast.Expr
+					own   types.Object
+					other types.Object
+					name  string
+				}{{cl.Elts[0], src, dst, "first"}, {cl.Elts[len(cl.Elts)-1], dst, src, "last"}} {
+					n++
+					deps := r243deps(p, f, end.e, 2, map[types.Object]bool{})
+					ok := deps[end.own] && !deps[end.other]
+					c.Check(ok, f, end.e, end.name+" waypoint of "+f.QName(), what, ifElse(ok, "computed from "+end.own.Name()+" only", fmt.Sprintf("%s depends on %s=%v, %s=%v", exprString(end.e), end.own.Name(), deps[end.own], end.other.Name(), deps[end.other])))
+				}
+			}
+			return true
+		})
+	}
+	if n == 0 {
+		c.Missing("waypoints", "no function (source, target bounds) -> []Point was found in the schema package")
+	}
+}
+
+func ruleR244(c *Ctx) {
+	p := c.P
+	what := "encoding/xml writes nothing for an empty list and parsing gives nil back; a model built in code carries make([]T, 0) where the parsed one carries nil. A predicate that tells the two apart (x != nil for 'has incoming flows') names different instantiating nodes for a model and for its re-parsed copy"
+	for _, f := range p.Funcs {
+		if f.Body == nil || f.Pkg.PkgPath != pathSchema {
+			continue
+		}
+		r := f.Root()
+		if r.Obj != nil && (strings.HasPrefix(r.Obj.Name(), "Unmarshal") || strings.HasPrefix(r.Obj.Name(), "Marshal") || strings.HasPrefix(r.Obj.Name(), "PreMarshal")) {
+			continue // what is written or read, not a predicate over the model (R102, R138 decide those)
+		}
+		in := info(f)
+		inspectNoLit(f.Body, func(m ast.Node) bool {
+			be, ok := m.(*ast.BinaryExpr)
+			if !ok || (be.Op != token.EQL && be.Op != token.NEQ) {
+				return true
+			}
+			for _, pair := range [][2]ast.Expr{{be.X, be.Y}, {be.Y, be.X}} {
+				tv, ok := in.Types[pair[1]]
+				if !ok || !tv.IsNil() {
+					continue
+				}
+				t := in.TypeOf(pair[0])
+				if t == nil {
+					continue
+				}
+				if _, isSl := t.Underlying().(*types.Slice); !isSl {
+					continue
+				}
+				// only lists of the model: a field of a schema struct, directly or through an accessor's pointer
+				modelList := false
+				ast.Inspect(pair[0], func(z ast.Node) bool {
+					switch y := z.(type) {
+					case *ast.SelectorExpr:
+						if fv := fieldOf(in, y); fv != nil && fv.Pkg() != nil && fv.Pkg().Path() == pathSchema {
+							modelList = true
+						}
+					case *ast.StarExpr:
+						modelList = true
+					}
+					return true
+				})
+				if !modelList {
+					continue
+				}
+				// value used in a condition or returned as a bool
+				c.Bad(f, be, "list compared with nil in "+f.QName(), what, exprString(be))
+			}
+			return true
+		})
+	}
+}
+
+func ruleR245(c *Ctx) {
+	p := c.P
+	what := "sync.RWMutex is not re-entrant: RLock inside RLock succeeds until a writer queues between the two — from then on the inner RLock waits for the writer and the writer for the outer RLock. A locator whose ApplyTo fetches values through GetVariable locks up for good the first time a token stores a result while somebody reads"
+	// per method: the lock fields of the receiver it (transitively, via methods on the same receiver) acquires
+	acq := map[*FuncInfo]map[string]bool{}
+	recvOf := func(f *FuncInfo) *types.Var {
+		if f.Obj == nil {
+			return nil
+		}
+		return f.Obj.Type().(*types.Signature).Recv()
+	}
+	var acquires func(f *FuncInfo, depth int) map[string]bool
+	acquires = func(f *FuncInfo, depth int) map[string]bool {
+		if a, ok := acq[f]; ok {
+			return a
+		}
+		out := map[string]bool{}
+		acq[f] = out
+		rv := recvOf(f)
+		if rv == nil || f.Body == nil {
+			return out
+		}
+		in := info(f)
+		rk := fmt.Sprintf("%p", types.Object(rv))
+		inspectNoLit(f.Body, func(m ast.Node) bool {
+			if _, isGo := m.(*ast.GoStmt); isGo {
+				return false
+			}
+			cl, ok := m.(*ast.CallExpr)
+			if !ok {
+				return true
+			}
+			if k, op, ok := lockCall(in, cl); ok && (op == "Lock" || op == "RLock") && strings.HasPrefix(k, rk+".") {
+				out[strings.TrimPrefix(k, rk)] = true
+			}
+			if depth > 0 {
+				if se, ok := unparen(cl.Fun).(*ast.SelectorExpr); ok {
+					if id, ok := unparen(se.X).(*ast.Ident); ok && objOf(in, id) == types.Object(rv) {
+						if cf := p.byObj[callee(in, cl)]; cf != nil && cf != f {
+							for s := range acquires(cf, depth-1) {
+								out[s] = true
+							}
+						}
+					}
+				}
+			}
+			return true
+		})
+		return out
+	}
+	for _, f := range p.Funcs {
+		if f.Body == nil || !isTargetPkg(p, f.Pkg.PkgPath) || f.Lit != nil {
+			continue
+		}
+		rv := recvOf(f)
+		if rv == nil {
+			continue
+		}
+		in := info(f)
+		rk := fmt.Sprintf("%p", types.Object(rv))
+		ls := locksetsOf(p, f)
+		for node, held := range ls {
+			if len(held) == 0 {
+				continue
+			}
+			if _, isDefer := node.(*ast.DeferStmt); isDefer {
+				continue
+			}
+			for _, cl := range callsIn(node) {
+				se, ok := unparen(cl.Fun).(*ast.SelectorExpr)
+				if !ok {
+					continue
+				}
+				id, ok := unparen(se.X).(*ast.Ident)
+				if !ok || objOf(in, id) != types.Object(rv) {
+					continue
+				}
+				cf := p.byObj[callee(in, cl)]
+				if cf == nil || cf == f {
+					continue
+				}
+				for s := range acquires(cf, 2) {
+					if _, has := held[rk+s]; has {
+						c.Bad(f, cl, "call of "+cf.QName()+" while "+rv.Name()+s+" is held in "+f.QName(), what, cf.QName()+" acquires "+rv.Name()+s+" again")
+					}
+				}
+			}
+		}
+	}
+}
